@@ -14,7 +14,7 @@ from .cayley_graph_def import AnyStateType, CayleyGraphDef, GeneratorType
 from .hasher import StateHasher
 from .string_encoder import StringEncoder
 from .torch_utils import isin_via_searchsorted
-from .torch_utils import VERIF_EVENTS
+from .torch_utils import VERIF_EVENTS, VERIF_KNOBS
 
 
 class CayleyGraph:
@@ -79,6 +79,9 @@ class CayleyGraph:
         self.definition = definition
         self.verbose = verbose
         self.batch_size = batch_size
+        if os.environ.get("CAYLEYPY_VERIF") == "1" and batch_size == 2**20 and VERIF_KNOBS.get("default_batch_size"):
+            # Verification hook: graphs built with the default batch size (e.g. derived copies) get a scaled-down one.
+            self.batch_size = int(VERIF_KNOBS["default_batch_size"])
         self.memory_limit_bytes = int(memory_limit_gb * (2**30))
         self.bit_encoding_width = bit_encoding_width
 
